@@ -112,6 +112,41 @@ def step : List String → String
         | none => "bad-op"
       | _ => "bad-op"
     | _, _, _, _ => "bad-op"
+  | ["load", wire] =>
+    match hexBytes? wire with
+    | some b => match loadFilter b with
+      | some f => s!"ok {toHex f.bits} {f.hashFuncs.toNat} {f.tweak.toNat} {toHex f.txTypes}"
+      | none => "err"
+    | none => "bad-op"
+  | "peer" :: wire :: n :: rest =>
+    -- TxFilter.Load(wire); Add(d) for each d; then MatchUnconfirmed on one-output transactions
+    match hexBytes? wire, nat? n with
+    | some b, some n =>
+      match takeHex n rest with
+      | some (ds, m :: rest2) =>
+        match nat? m, loadFilter b with
+        | some m, some f =>
+          match addAll mm f ds with
+          | none => "panic"
+          | some g =>
+            let rec go : Nat → List String → Filter → List Char → Option (List Char)
+              | 0, [], _, acc => some acc.reverse
+              | 0, _ :: _, _, _ => none
+              | k + 1, h :: ph :: _lock :: more, g, acc =>
+                match hexBytes? h, hexBytes? ph with
+                | some h, some ph =>
+                  match matchTxAndUpdate mm g ⟨h, 2, [ph], []⟩ with
+                  | some (r, g') => go k more g' ((if r then '1' else '0') :: acc)
+                  | none => some ('p' :: acc).reverse
+                | _, _ => none
+              | _ + 1, _, _, _ => none
+            match go m rest2 g [] with
+            | some cs => "ok " ++ String.ofList cs
+            | none => "bad-op"
+        | some _, none => "err"
+        | none, _ => "bad-op"
+      | _ => "bad-op"
+    | _, _ => "bad-op"
   | _ => "bad-op"
 
 end C39Drv
